@@ -28,7 +28,7 @@ CHECKS = {
   note=COMMON_NOTE + "Premises: 16-byte outputs of cipher and MAC (proved for the Gallina AES/CMAC); enc_dec only for the JoinAccept round trip (checked on random blocks against RustCrypto and AES.v by C01's primitive comparison).",
   tech="machine-checked proof in Coq (parser/decryptor model vs declarative L2 spec; round trip) + differential correspondence incl. mutated frames", ref="6 C02"),
  "C03": dict(
-  text="Coq theorems (Props/C03.v) for EVERY command table and EVERY byte string: the iterator model (the framing the CommandHandler derive generates + the fused "
+  text="Coq theorems (Props/C03.v): C03_command_lengths_match_lorawan -- CIDs and payload lengths of the regenerated MAC-command tables are those of LoRaWAN 1.0.x section 5 (independent table in Spec/MacCmdSpec.v); for EVERY command table and EVERY byte string: the iterator model (the framing the CommandHandler derive generates + the fused "
        "MacCommands iterator) yields a finite list: whole commands whose bytes form a prefix of the input, then at most one error, then nothing (fused), never an "
        "out-of-bounds access, and length+1 steps always suffice (termination). The six command tables and the index ranges every payload accessor reads are REGENERATED "
        "from /repo's source on every run by tools/rs2v/cmdtables.py, and a computed sweep proves every accessor range lies inside the length the framing guarantees. "
@@ -137,7 +137,7 @@ CHECKS = {
   note=COMMON_NOTE + "Regional validity (band limits, defined data rates, offset limits) in the theorems refers to the tables regenerated from /repo by tools/rs2v/regiontables.py; TX power index ranges likewise. NbTrans is not implemented by the stack and not judged.",
   tech="machine-checked proof in Coq (per-command atomicity lemmas) + translator-regenerated regional tables + exhaustive-field MAC-history correspondence + independent answer/effect oracle", ref="6 C08"),
  "C09": dict(
-  text="Coq theorems (Props/C09.v). C09_regional_constants_match_rp002: band limits, maximum EIRP, highest TXPower index, largest RX1DROffset and default join channels of the tables REGENERATED from /repo equal the RP002 values written independently in Spec/RP002.v. Dynamic plans: the invariant dyn_ok (16 slots, every defined channel inside the band of the regenerated table, join channels defined on the default join frequencies) "
+  text="Coq theorems (Props/C09.v). C09_regional_constants_match_rp002 / C09_fixed_plan_channel_maps_match_rp002: band limits, maximum EIRP, highest TXPower index, largest RX1DROffset, default join channels, the 72 + 8 channel frequencies of US915 / AU915 and their join data rates, all REGENERATED from /repo, equal the RP002 values written independently in Spec/RP002.v. Dynamic plans: the invariant dyn_ok (16 slots, every defined channel inside the band of the regenerated table, join channels defined on the default join frequencies) "
        "holds initially (sweep over the regenerated tables) and is kept by a JoinAccept CFList, NewChannelReq and DlChannelReq; under it a data uplink goes out on a defined channel, enabled in the mask "
        "left in force, in band, at the configured region-defined data rate, a join request on a default join frequency; fixed plans: a mask-driven data uplink uses an enabled channel of the uplink map "
        "whose kind (125/500 kHz) matches the bandwidth of the data rate; the join data rates of the regenerated table have the bandwidth of their channel kind; after the fall-back a usable channel "
@@ -157,7 +157,7 @@ CHECKS = {
   note=COMMON_NOTE + "Region tables (bands, channel maps, data rates, join data rates, EIRP) are regenerated from /repo by tools/rs2v/regiontables.py. The oracle reads the channel plan / mask from the hook's snapshot.",
   tech="machine-checked proof in Coq (plan invariant + legality of every selection path + fall-back + power bound, lifted to every nb_device event sequence and every async_device call sequence; termination on every stream refuted by a witness) + translator-regenerated tables + MAC-history and front-end correspondence with exhaustive first-draw enumeration + RP002 oracle", ref="6 C09"),
  "C10": dict(
-  text="Coq theorems (Props/C10.v): C10_rx2_default_frequency -- the RX2 default frequency of every region's regenerated table is the RP002 value (AS923-n: 923.2 MHz + group offset; this theorem failed on AS923-3 = 916.5 MHz until /repo fix 4a1b5b8); the RX1 data-rate function of each of the 9 regions equals the RP002 rule (EU/AS/IN: max(dr-off,0); US915: min(13,max(8,10+dr-off)); AU915: "
+  text="Coq theorems (Props/C10.v): C10_protocol_constants (RECEIVE_DELAY1, JOIN_ACCEPT_DELAY1/2, MAX_FCNT_GAP, ADR_ACK_LIMIT/DELAY regenerated from constants.rs = the specification's values); C10_rx2_default_frequency -- the RX2 default frequency of every region's regenerated table is the RP002 value (AS923-n: 923.2 MHz + group offset; this theorem failed on AS923-3 = 916.5 MHz until /repo fix 4a1b5b8); the RX1 data-rate function of each of the 9 regions equals the RP002 rule (EU/AS/IN: max(dr-off,0); US915: min(13,max(8,10+dr-off)); AU915: "
        "min(13,max(8,8+dr-off))) on the whole scope where RP002 defines it (sweep of all 9x16x8 inputs of the regenerated tables, lifted by forallb_forall) and is TOTAL (no panic, "
        "a region-defined LoRa data rate) on all 16x8 inputs; for every MAC state and TX configuration rx_windows yields RX1 on the downlink frequency paired with the channel actually "
        "used at the table rate of the data rate actually used, RX2 on the negotiated-or-default frequency/data rate, both by value; delays: RX1 = negotiated delay, RX2 = RX1 + 1 s, "
